@@ -74,7 +74,7 @@ def gen_alphabet(rng):
     add(dict(alpha[0], precision="single"))  # the single-precision twin
     kinds = ["srf_flx.shape", "modes", "footprint", "analytic", "halo.other", "halo.none", "levels.list", "levels.reorder",
              "levels.scalar", "domain", "z", "profiles.u", "meas_pt", "srf_bg_conc", "precision", "srf_flx.values",
-             "repr.np", "repr.int", "levels.asarray", "profiles.elem", "modes", "precision", "footprint"]
+             "repr.np", "repr.int", "levels.asarray", "profiles.elem", "modes", "precision", "footprint", "levels.samelen", "srf_flx.transpose"]
     # always one neighbour with identical array shapes but different values: a
     # memo or buffer keyed by shapes alone collides on it
     for _ in range(6):
@@ -472,9 +472,14 @@ class Segment:
         for (pk, pc, pf, dc, df) in self.held:
             if arr_digest(pc) != dc or arr_digest(pf) != df:
                 raise Violation("purity", "aliased-result", f"op {k}: the arrays returned by the solve at op {pk} changed while a later solve ran", {"op": k, "field": "returned-arrays"})
+        self.results.append((k, i, threads, conc.copy(), flx.copy(), [np.asarray(g).copy() for g in grid]))
+        # a caller may do what it likes with what it was given: overwrite it, so
+        # that a solver handing out the same objects again shows at the next call
+        for a in list(grid) + [conc, flx]:
+            if isinstance(a, np.ndarray) and a.flags.writeable and a.dtype.kind == "f":
+                a[...] = np.nan
         self.held.append((k, conc, flx, arr_digest(conc), arr_digest(flx)))
         del self.held[:-6]
-        self.results.append((k, i, threads, conc.copy(), flx.copy(), [np.asarray(g).copy() for g in grid]))
         # no array digests in the event log: across processes C12 itself only
         # promises equality to rounding, so the run digest must not demand more
         self.events.append([k, "solve", i, threads, str(conc.dtype), list(conc.shape)])
